@@ -15,7 +15,11 @@ RULE = ('corpus; structured random 2-D images with even sides 2..64 (square and 
         'transposed) x the four wrappers x inline on/off x eight dtypes: the whole buffer owning the input before/after '
         'the call and the returned image against Model/C17Mem.lean. Centre cases (kind centeri): 1-3 dimensions x integer '
         'borders negative / 0..24 / 2^k+-1 up to 2^40-1 / out of range, zero sides: _wavelet_center_compute, '
-        'wavelet_center, wavelet_decenter against centerComputeI. Non-trivial = the image is not constant zero; '
+        'wavelet_center, wavelet_decenter against centerComputeI. Size-threshold stream (tag size=threshold): 6 cases per '
+        'quick run (10 otherwise) with row lengths / element counts crossing 2^8, 2^15, 2^16 (2x65538, 65538x2, 258x256, '
+        '2x32770, 256x258, odd 2x65537), round trip / energy / linearity / Lean core model; thorough tier adds two float32 '
+        'images with more than 2^24 elements (2x8388610, 131074x130) judged by an exact O(N) numpy transliteration of the '
+        'Haar row kernels whose agreement with the Lean model is checked on every small haar case. Non-trivial = the image is not constant zero; '
         'distinct = distinct case.')
 ASSUMPTIONS = [
     'finite values, |f| <= 1e6; even sides (the statement names them); sizes < 2^31',
@@ -104,6 +108,32 @@ def _root_flat(v):
     return flat, int(off), [int(st // isz) for st in v.strides]
 
 
+def _py_rows(name, X):
+    """exact O(N) numpy transliteration of the Haar row kernels on the rows of a C-contiguous 2-D array (core model:
+    valid where the pointer high = data + step*N1/2 is right); its agreement with the Lean model is checked on every
+    small `haar` case"""
+    N1 = X.shape[1]
+    h = N1 // 2
+    out = np.zeros_like(X)
+    if name == 'haar':
+        out[:, :h] = X[:, 0:2 * h:2] + X[:, 1:2 * h:2]
+        out[:, h:2 * h] = X[:, 1:2 * h:2] - X[:, 0:2 * h:2]
+    else:
+        lo, hi = X[:, :h], X[:, h:2 * h]
+        out[:, 0:2 * h:2] = (lo - hi) / 2
+        out[:, 1:2 * h:2] = (lo + hi) / 2
+    return out
+
+
+def _py_haar2(name, A, pe):
+    X = np.array(A, copy=True)
+    X = _py_rows(name, X)
+    X = np.ascontiguousarray(_py_rows(name, np.ascontiguousarray(X.T)).T)
+    if pe:
+        X = X / X.dtype.type(2) if name == 'haar' else X * X.dtype.type(2)
+    return X
+
+
 def _arr(case, key='data'):
     return np.array(case[key], dtype=np.float64).astype(case['dtype']).reshape(case['shape'])
 
@@ -124,7 +154,7 @@ def _run(case):
     import mahotas as mh
     k = case['kind']
     dt = case['dtype']
-    A = _arr(case)
+    A = _arr(case) if 'data' in case else np.zeros(case['shape'], case['dtype'])
     layout = case.get('layout', 'C')
     inline = bool(case.get('inline', False))
     isfloat = dt in ('float32', 'float64')
@@ -148,6 +178,10 @@ def _run(case):
                     'input' if (h is Al or np.shares_memory(h, Al)) else 'fresh', None, 'wrap:haar'))
         hc = np.array(h, copy=True)
         req.append((_line('haar', A, pe), hc, _mtol(dt, A) * 4, 'haar'))
+        if A.size <= 4096:
+            # the numpy oracle used for the huge thorough-tier cases agrees with the Lean model (double arithmetic)
+            req.append((_line('haar', A, pe), _py_haar2('haar', A.astype(np.float64), pe), 1e-12 * scale * 4, 'oracle-haar'))
+            req.append((_line('ihaar', A, pe), _py_haar2('ihaar', A.astype(np.float64), pe), 1e-12 * scale * 4, 'oracle-ihaar'))
         r = mh.ihaar(hc.copy(), preserve_energy=pe, inline=False)
         req.append((_line('ihaar', hc, pe), np.array(r), _mtol(dt, hc) * 4, 'ihaar'))
         exact = bool(np.all(A == np.round(A))) and scale < 2 ** 20
@@ -303,6 +337,41 @@ def _run(case):
             if not np.all(fc[~inside] == case.get('cval', 0.0)):
                 f.append(dict(kind='model', key='center-fill', detail=dict(border=border)))
         req.append((f"c17 kind=centeri shape={core.fmt_ints(shape)} border={border}", got, None, 'centeri'))
+    elif k == 'tmodel':
+        # wrapper on a C-contiguous float array against the CORE model; generated only where theorem C17_mem_is_core
+        # applies (even number of rows or a single column ... : both pointers right), odd row lengths included
+        name = case['name']
+        pe = bool(case.get('pe', True))
+        ci = CODES.index(case.get('code', 'D2'))
+        X = np.ascontiguousarray(A)
+        r = getattr(mh, name)(X, preserve_energy=pe) if name in ('haar', 'ihaar') else getattr(mh, name)(X, CODES[ci])
+        req.append((_line(name, A, pe, ci), np.asarray(r, np.float64), _mtol(dt, A, r) * 8, f'tmodel:{name}'))
+        if name == 'haar':
+            r2 = mh.ihaar(r, preserve_energy=pe)
+            want = A.astype(np.float64).copy()
+            want[2 * (A.shape[0] // 2):, :] = 0
+            want[:, 2 * (A.shape[1] // 2):] = 0
+            if not np.array_equal(np.asarray(r2, np.float64), want):
+                f.append(dict(kind='model', key='haar-roundtrip-odd', detail=dict(shape=list(A.shape))))
+    elif k == 'bigpy':
+        # thorough tier: more than 2^24 elements, judged by the numpy oracle (the Lean driver is not fed 16M numbers)
+        pe = bool(case.get('pe', True))
+        rs = np.random.RandomState(case['seed'])
+        A = rs.randint(-8, 9, size=case['shape']).astype(dt)
+        h = mh.haar(A, preserve_energy=pe)
+        o = _py_haar2('haar', A, pe)
+        if not np.array_equal(np.asarray(h), o):
+            bad = np.argwhere(np.asarray(h) != o)
+            f.append(dict(kind='model', key='oracle:haar:big', detail=dict(first=[int(t) for t in bad[0]], nbad=int(len(bad)))))
+        r = mh.ihaar(h, preserve_energy=pe)
+        if not np.array_equal(np.asarray(r), A):
+            bad = np.argwhere(np.asarray(r) != A)
+            f.append(dict(kind='property', key='haar-roundtrip:big', detail=dict(first=[int(t) for t in bad[0]], nbad=int(len(bad)))))
+        if pe:
+            e0 = float((A.astype(np.float64) ** 2).sum()); e1 = float((np.asarray(h, np.float64) ** 2).sum())
+            if not abs(e0 - e1) <= 1e-9 * max(1.0, e0):
+                f.append(dict(kind='property', key='haar-energy:big', detail=dict(before=e0, after=e1)))
+        return f, req, True
     nontrivial = bool(np.any(A != 0))
     return f, req, nontrivial
 
@@ -391,6 +460,8 @@ def evaluate(cases):
         elif c['kind'] == 'daub':
             tags.update(code=c['code'], inline=c.get('inline', False),
                         margin=('>=ncoeffs-2 (reconstruction asserted)' if c.pop('_margin', False) else '<ncoeffs-2 (model only)'))
+        elif c['kind'] in ('tmodel', 'bigpy'):
+            tags.update(name=c.get('name', 'haar'), parity=''.join('o' if n % 2 else 'e' for n in c['shape']))
         elif c['kind'] == 'mem':
             tags.update(name=c['name'], inline=c.get('inline', False),
                         parity=''.join('o' if n % 2 else 'e' for n in c['shape']))
@@ -400,7 +471,11 @@ def evaluate(cases):
                                 'large' if b < 2 ** 40 else 'out-of-range'), ndim=len(c['shape']))
         else:
             tags.update(name=c['name'], code=c.get('code'))
-        res.append(dict(findings=f, nontrivial=nontrivial, sig=json.dumps(c, sort_keys=True), tags=tags))
+        if c.get('stream') == 'threshold':
+            tags['size'] = 'threshold'
+        res.append(dict(findings=f, nontrivial=nontrivial, sig=(json.dumps(c, sort_keys=True) if len(c.get('data', ())) <= 20000 else
+                             json.dumps(dict(kind=c['kind'], shape=c['shape'], dtype=c['dtype'], stream='threshold',
+                                             h=hash(tuple(c['data']))), sort_keys=True)), tags=tags))
     return res
 
 
@@ -515,10 +590,37 @@ def cases(rng, tier):
         n = int(np.prod(shape))
         out.append(dict(kind='centeri', dtype=dtype, shape=shape, data=_values(rng, n, dtype), border=border,
                         cval=float(rng.choice([0, 0, 1, -3])), layout='C'))
+    # size-threshold stream: row lengths / element counts crossing 2^8, 2^15, 2^16 (a counter or index narrowed to
+    # 16 bits passes every small case); integer-valued data, judged by the Lean driver (core model)
+    def ints_(n):
+        return [float(rng.randint(-9, 9)) for _ in range(n)]
+    thr = [dict(kind='haar', dtype='float64', shape=[2, 65538], pe=True, inline=False, layout='C'),
+           dict(kind='haar', dtype='float32', shape=[65538, 2], pe=False, inline=True, layout='C'),
+           dict(kind='haar', dtype='float64', shape=[258, 256], pe=True, inline=False, layout='F'),
+           dict(kind='lin', dtype='float64', shape=[2, 32770], name='idaubechies', a=2.0, b=-3.0, code='D6', pe=True, layout='C'),
+           dict(kind='lin', dtype='float64', shape=[256, 258], name='daubechies', a=1.0, b=2.0, code='D20', pe=True, layout='transposed'),
+           dict(kind='tmodel', dtype='float64', shape=[2, 65537], name='haar', pe=True, layout='C')]
+    if tier != 'quick':
+        thr += [dict(kind='tmodel', dtype='float64', shape=[32768, 3], name='ihaar', pe=False, layout='C'),
+                dict(kind='tmodel', dtype='float64', shape=[2, 65539], name='idaubechies', code='D4', layout='C'),
+                dict(kind='haar', dtype='int32', shape=[32770, 4], pe=True, inline=False, layout='strided'),
+                dict(kind='lin', dtype='float32', shape=[4, 65540], name='ihaar', a=1.0, b=1.0, code='D2', pe=False, layout='C')]
+    for c in thr:
+        n = c['shape'][0] * c['shape'][1]
+        c.update(data=ints_(n), stream='threshold')
+        if c['kind'] == 'lin':
+            c['data2'] = ints_(n)
+        out.append(c)
+    if tier == 'thorough':
+        # float32 images with more than 2^24 elements / rows longer than 2^16 (numpy oracle)
+        out.append(dict(kind='bigpy', dtype='float32', shape=[2, 8388610], pe=True, seed=rng.randint(0, 10 ** 6), stream='threshold'))
+        out.append(dict(kind='bigpy', dtype='float32', shape=[131074, 130], pe=False, seed=rng.randint(0, 10 ** 6), stream='threshold'))
     return out
 
 
 def shrink(case):
+    if case['kind'] in ('bigpy', 'tmodel') or case.get('stream') == 'threshold':
+        return
     if case['kind'] == 'centeri':
         if case['border'] not in (0, 1, -1):
             yield dict(case, border=case['border'] // 2)
